@@ -130,6 +130,11 @@ def work(shard, tier):
             iv_params = set()
         inputs = list(gen.hostile_strings(nums, tier, rng)) + list(gen.size_strings(nums, tier))
         inputs += [('registry-probe', 'prefix', x) for x in C.registry_probe_inputs(name, rng, 30 if tier == 'quick' else 400)]
+        # payload sweep: numbers of the right shape with random digits/letters (rare check values, 1-in-100 branches)
+        for v0 in nums[:2]:
+            for _ in range(120 if tier == 'quick' else 3000):
+                x = ''.join(rng.choice('0123456789') if c.isdigit() else rng.choice('ABCDEFGHJKLMNPQRSTUVWXYZ') if c.isalpha() and c.isascii() else c for c in v0)
+                inputs.append(('payload-sweep', 'shape', x))
         for cls, pc, x in inputs:
             before = past_clean[0]
             ov = check_pair(name, mod, lambda x=x: x, {}, cls, viols)
